@@ -425,7 +425,9 @@ class Check(PropertyCheck):
                     r = self.rng.random()
                     prog.append(("job", scriptable and r < 0.25) if r < 0.6 else (("stop",) if r < 0.8 else ("wait",)))
                 prog.append(("job", False))
-                outs.append(execute_arr(key, info, cnt, 0, "arr-waves-random", ["S", "idle"] * (len(prog) + 1),
+                # the executor is drained (all monitors gone) before every step of the scheduler thread, so an
+                # external stop() never hits an executor with outstanding jobs (assumption of the property)
+                outs.append(execute_arr(key, info, cnt, 0, "arr-waves-random", ["idle", "S"] * (2 * len(prog) + 2),
                                         program=prog))
         self.arr_outs = outs
         return outs
